@@ -64,6 +64,45 @@ func (c *Ctx) roleDisjoint(m *locks.Monitor) {
 // cursor, both comparisons use the same operator: the boundary case (exactly enough
 // space / data) is treated alike.
 func (c *Ctx) cachedCursorComparisons(m *locks.Monitor) {
+	// relOn: the relation "a REL other" that holds on the edge with the given truth value of `a op b` / `b op a`
+	relOn := func(bo *ssa.BinOp, a ssa.Value, truth bool) (token.Token, bool) {
+		op := bo.Op
+		switch op {
+		case token.LSS, token.LEQ, token.GTR, token.GEQ:
+		default:
+			return op, false
+		}
+		if bo.Y == a && bo.X != a {
+			op = map[token.Token]token.Token{token.LSS: token.GTR, token.LEQ: token.GEQ, token.GTR: token.LSS, token.GEQ: token.LEQ}[op]
+		} else if bo.X != a {
+			return op, false
+		}
+		if !truth {
+			op = map[token.Token]token.Token{token.LSS: token.GEQ, token.LEQ: token.GTR, token.GTR: token.LEQ, token.GEQ: token.LSS}[op]
+		}
+		return op, true
+	}
+	// reachesReturnAvoiding: a return is reachable from b without entering one of the blocks to avoid
+	reachesReturnAvoiding := func(b *ssa.BasicBlock, avoid map[*ssa.BasicBlock]bool) bool {
+		seen := map[*ssa.BasicBlock]bool{}
+		var walk func(x *ssa.BasicBlock) bool
+		walk = func(x *ssa.BasicBlock) bool {
+			if seen[x] || avoid[x] {
+				return false
+			}
+			seen[x] = true
+			if _, ok := x.Instrs[len(x.Instrs)-1].(*ssa.Return); ok {
+				return true
+			}
+			for _, s := range x.Succs {
+				if walk(s) {
+					return true
+				}
+			}
+			return false
+		}
+		return walk(b)
+	}
 	for _, cf := range m.Conds {
 		for _, wl := range m.Waits[cf] {
 			fn := wl.Wait.Instr.Parent()
@@ -86,6 +125,17 @@ func (c *Ctx) cachedCursorComparisons(m *locks.Monitor) {
 				if fresh == nil {
 					continue
 				}
+				// the edge of the loop test on which the caller keeps waiting: the successor inside the loop when the
+				// other one leaves it
+				tb := t.Block()
+				in0, in1 := wl.Loop.Blocks[tb.Succs[0]], wl.Loop.Blocks[tb.Succs[1]]
+				if in0 == in1 {
+					continue
+				}
+				loopRel, okRel := relOn(bo, a, in0)
+				if !okRel {
+					continue
+				}
 				// where is the fresh value cached? a Store of it into a field
 				var cachePath *ir.Path
 				if fresh.Referrers() != nil {
@@ -99,40 +149,43 @@ func (c *Ctx) cachedCursorComparisons(m *locks.Monitor) {
 				if cachePath == nil {
 					continue
 				}
-				// other comparisons of the same A with a load of the cache location
+				// other comparisons of the same A with a load of the cache location that decide, on one edge, that the
+				// caller has to wait (no return is reachable from there without entering the wait loop)
 				for _, b := range fn.Blocks {
 					iff, ok := b.Instrs[len(b.Instrs)-1].(*ssa.If)
-					if !ok || iff == t {
+					if !ok || iff == t || wl.Loop.Blocks[b] {
 						continue
 					}
-					conds := []*ssa.BinOp{}
-					var collect func(v ssa.Value)
-					collect = func(v ssa.Value) {
-						if x, ok := v.(*ssa.BinOp); ok {
-							conds = append(conds, x)
-						}
+					b2, ok := iff.Cond.(*ssa.BinOp)
+					if !ok {
+						continue
 					}
-					collect(iff.Cond)
-					for _, b2 := range conds {
-						var other ssa.Value
-						sameSide := false
-						if b2.X == a {
-							other, sameSide = b2.Y, bo.X == a
-						} else if b2.Y == a {
-							other, sameSide = b2.X, bo.Y == a
-						}
-						if other == nil {
-							continue
-						}
-						u, ok := ir.SeeThrough(other).(*ssa.UnOp)
-						if !ok || !ir.SamePath(ir.PathOf(u.X), *cachePath) {
-							continue
-						}
-						key := fmt.Sprintf("%s:wait(%s):fast-path-and-wait-loop-compare-alike", fname(fn), cf)
-						c.R.Check(sameSide && b2.Op == bo.Op, ruleL3, key, c.P.InstrPos(t),
-							fmt.Sprintf("both the cached-cursor test and the wait-loop test use '%s'", bo.Op),
-							fmt.Sprintf("the fast path compares with the cached cursor using '%s' but the wait loop compares with the fresh cursor using '%s': in the boundary case (exactly enough room) the fast path proceeds while a blocked caller keeps waiting - if the other side makes no further progress both sides wait forever", b2.Op, bo.Op))
+					var other ssa.Value
+					if b2.X == a {
+						other = b2.Y
+					} else if b2.Y == a {
+						other = b2.X
 					}
+					if other == nil {
+						continue
+					}
+					u, ok := ir.SeeThrough(other).(*ssa.UnOp)
+					if !ok || !ir.SamePath(ir.PathOf(u.X), *cachePath) {
+						continue
+					}
+					free0 := reachesReturnAvoiding(b.Succs[0], wl.Loop.Blocks)
+					free1 := reachesReturnAvoiding(b.Succs[1], wl.Loop.Blocks)
+					if free0 == free1 {
+						continue // this test alone does not decide between waiting and proceeding
+					}
+					fastRel, okF := relOn(b2, a, !free0)
+					if !okF {
+						continue
+					}
+					key := fmt.Sprintf("%s:wait(%s):fast-path-and-wait-loop-compare-alike", fname(fn), cf)
+					c.R.Check(fastRel == loopRel, ruleL3, key, c.P.InstrPos(t),
+						fmt.Sprintf("the cached-cursor test and the wait-loop test both keep the caller waiting while 'x %s cursor'", loopRel),
+						fmt.Sprintf("the fast path sends the caller into the wait while 'x %s cached cursor' but the wait loop keeps it waiting while 'x %s fresh cursor': in the boundary case (exactly enough room) the fast path proceeds while a blocked caller keeps waiting - if the other side makes no further progress both sides wait forever", fastRel, loopRel))
 				}
 			}
 		}
@@ -557,22 +610,43 @@ func (c *Ctx) ringPositions() {
 				return
 			}
 			n++
-			ok := false
-			v := ir.SeeThrough(idx)
-			if cv, isC := v.(*ssa.Convert); isC {
-				v = ir.SeeThrough(cv.X)
-			}
-			if bo, isB := v.(*ssa.BinOp); isB && bo.Op == token.AND {
-				for _, pr := range [][2]ssa.Value{{bo.X, bo.Y}, {bo.Y, bo.X}} {
-					mp := ir.PathOf(pr[1])
-					if len(mp.Fields) == 0 || mp.Fields[len(mp.Fields)-1] != "mask" {
-						continue
-					}
-					if side == "consumer" && readsCursor(pr[0], cursor, 0) || side == "producer" && fromProducerCursor(pr[0]) {
-						ok = true
+			var atCursor func(v ssa.Value, d int) bool
+			atCursor = func(v ssa.Value, d int) bool {
+				v = ir.SeeThrough(v)
+				if cv, isC := v.(*ssa.Convert); isC {
+					v = ir.SeeThrough(cv.X)
+				}
+				if bo, isB := v.(*ssa.BinOp); isB && bo.Op == token.AND {
+					for _, pr := range [][2]ssa.Value{{bo.X, bo.Y}, {bo.Y, bo.X}} {
+						mp := ir.PathOf(pr[1])
+						if len(mp.Fields) == 0 || mp.Fields[len(mp.Fields)-1] != "mask" {
+							continue
+						}
+						if side == "consumer" && readsCursor(pr[0], cursor, 0) || side == "producer" && fromProducerCursor(pr[0]) {
+							return true
+						}
 					}
 				}
+				// a copy loop that continues at the start of the storage after reaching its end: (cursor & mask) or 0
+				if ph, isPhi := v.(*ssa.Phi); isPhi && d < 3 {
+					some := false
+					for _, e := range ph.Edges {
+						if k, isK := e.(*ssa.Const); isK && k.Value != nil && k.Value.ExactString() == "0" {
+							continue
+						}
+						if e == ssa.Value(ph) {
+							continue
+						}
+						if !atCursor(e, d+1) {
+							return false
+						}
+						some = true
+					}
+					return some
+				}
+				return false
 			}
+			ok := atCursor(idx, 0)
 			c.R.Check(ok, ruleP9, fmt.Sprintf("ring:%s:%s-at-own-cursor", fn.Name(), what), c.P.InstrPos(at), "start index = ("+side+"'s cursor) & mask",
 				"the "+side+"-side call "+fn.Name()+" addresses the ring's storage at an index that is not ("+side+"'s cursor & mask): it reads bytes that were not written yet / overwrites bytes that were not consumed yet")
 		}
